@@ -140,7 +140,7 @@ func mutMain(args []string) {
 			func() {
 				defer func() {
 					if rc := recover(); rc != nil {
-						res = "(RErr EOther) (* panic: " + strings.ReplaceAll(fmt.Sprint(rc), "*)", "* )") + " *)"
+						res = "(RErr EOther) " + cq.Comment("panic: "+fmt.Sprint(rc))
 						stats["add:panic"]++
 					}
 				}()
@@ -163,7 +163,7 @@ func mutMain(args []string) {
 		func() {
 			defer func() {
 				if rc := recover(); rc != nil {
-					res = "MPanic (* " + strings.ReplaceAll(fmt.Sprint(rc), "*)", "* )") + " *)"
+					res = "MPanic " + cq.Comment(fmt.Sprint(rc))
 				}
 			}()
 			ms, err := mutator.DefaultMutatorStore.Load(meta)
